@@ -91,6 +91,19 @@ def rule_abc(ctx: Context, R: Reporter, f: FuncInfo):
     cfg = flow.cfg
     samples_p, weights_p = f.params[0], f.params[1]
     ess_p = f.params[2] if len(f.params) > 2 else "ess"
+    # the requested fraction is the caller's: it is not capped, floored or otherwise re-bound inside the routine
+    for nd in cfg.stmt_nodes():
+        if nd.kind != "stmt":
+            continue
+        st = nd.stmt
+        tg = [x for t in (st.targets if isinstance(st, ast.Assign) else ([st.target] if isinstance(st, (ast.AugAssign, ast.AnnAssign)) else [])) for x in ast.walk(t)
+              if isinstance(x, ast.Name) and isinstance(x.ctx, ast.Store)]
+        if any(t.id == ess_p for t in tg):
+            v = st.value if isinstance(st, (ast.Assign, ast.AnnAssign)) else None
+            cast = isinstance(v, ast.Call) and dotted(v.func) in ("float", "np.float64") and len(v.args) == 1 and norm_text(v.args[0]) == ess_p
+            R.check("C20.c", "the requested ESS fraction is not re-bound inside the trimming routine", cast, f, st,
+                    msg=f"{f.short}: `{unparse(st)[:60]}` replaces the requested fraction `{ess_p}`: the search then stops at a subset that satisfies the *replaced* fraction (a cap at 0.99 "
+                        f"turns every request in (0.99, 1) into 0.99), so the returned subset can have less than the requested share of the untrimmed ESS", key="requested-fraction-rebound")
     rets = [n for n in cfg.stmt_nodes() if n.kind == "stmt" and isinstance(n.stmt, ast.Return) and isinstance(n.stmt.value, ast.Tuple) and len(n.stmt.value.elts) == 2]
     R.floor("C20.a", "returns of the trimming routine", len(rets), 1)
     for rn in rets:
@@ -637,7 +650,7 @@ def run(ctx: Context, R: Reporter):
 
 
 def variants():
-    from ..variants import Variant, alpha_rename, delete_stmt, replace_expr, replace_stmt
+    from ..variants import Variant, alpha_rename, delete_stmt, insert_before, replace_expr, replace_stmt
 
     tl = "tempest/tools.py"
     return [
@@ -654,6 +667,9 @@ def variants():
         Variant("c-unnormalised-subset", "bad", delete_stmt(tl, "trim_weights", "weights_trimmed /= np.sum(weights_trimmed)"), ["C20.c", "C20.d", "C20.e"]),
         Variant("d-ess-raw-squares", "bad", replace_stmt(tl, "effective_sample_size", "weights = weights / np.sum(weights)", "return np.sum(weights) ** 2 / np.sum(weights ** 2)"), ["C20.d"], quick=True),
         Variant("d-ess-no-normalise", "bad", delete_stmt(tl, "effective_sample_size", "weights = weights / np.sum(weights)"), ["C20.d", "C20.e"]),
+        Variant("z-histogram-through-repeating-bins", "bad", insert_before(tl, "trim_weights", "ess_total = 1.0 / np.sum(weights ** 2.0)", "occupancy = np.zeros(bins)\noccupancy[np.searchsorted(np.linspace(0, 1, bins), weights) - 1] += 1"), ["C20.z"], quick=True),
+        Variant("z-benign-histogram-with-add-at", "benign", insert_before(tl, "trim_weights", "ess_total = 1.0 / np.sum(weights ** 2.0)", "occupancy = np.zeros(bins)\nnp.add.at(occupancy, np.searchsorted(np.linspace(0, 1, bins), weights) - 1, 1)")),
+        Variant("c-requested-fraction-capped", "bad", insert_before(tl, "trim_weights", "ess_total = 1.0 / np.sum(weights ** 2.0)", "ess = min(ess, 0.99)"), ["C20.c"], quick=True),
         Variant("e-max-shift-with-initial-zero", "bad", replace_expr(tl, "compute_ess", "np.max(logw)", "np.max(logw, initial=0.0)"), ["C20.e"], quick=True),
         Variant("e-benign-max-shift-with-initial-neg-inf", "benign", replace_expr(tl, "compute_ess", "np.max(logw)", "np.max(logw, initial=-np.inf)")),
         Variant("e-ess-wrong-power", "bad", replace_expr(tl, "effective_sample_size", "weights ** 2.0", "weights ** 3.0"), ["C20.e"]),
